@@ -59,7 +59,7 @@ def finish(g, toks, info, tags, with_model):
 
 
 def seam_specs(rng, natt=None):
-    natt = natt or rng.randint(2, 3)
+    natt = rng.randint(2, 3) if natt is None else natt
     specs = [(G.POSITION, G.DT["f32"], 3, False, 0)]
     for k in range(natt):
         t = rng.choice([G.TEX_COORD, G.GENERIC, G.NORMAL, G.COLOR])
